@@ -266,3 +266,61 @@ Definition on_control_frame (fr : frame_res) (st : peer_state) : res N peer_stat
   | FrPanic p => Panic p
   | FrIncomplete | FrOther => Ok st   (* waiting for bytes / other frames: C02, C04 *)
   end.
+
+(* ---------- handle_connection_error on an InternalConnectionError: the code is returned to the caller and the
+   QUIC connection is closed with it (`closed` = the code the peer sees: the first close wins) ---------- *)
+Definition handle_connection_error (code : N) (closed : option N) : N * option N :=
+  (code, match closed with None => Some code | Some c => Some c end).
+
+(* ---------- the control stream after its type byte: frames as they become complete; a SETTINGS frame goes
+   through poll_control's arm, anything else ends this model's run ---------- *)
+Fixpoint recv_control (fuel : nat) (bs : bytes) (st : peer_state) : res N peer_state :=
+  match fuel with
+  | O => Ok st
+  | S f =>
+      match bs with
+      | [] => Ok st
+      | _ =>
+          match frame_decode bs with
+          | FrSettings s rest =>
+              match on_control_frame (FrSettings s rest) st with
+              | Ok st' => recv_control f rest st'
+              | Err c => Err c
+              | Panic p => Panic p
+              end
+          | fr => on_control_frame fr st
+          end
+      end
+  end.
+
+(* ---------- the builders: Config::default() and then any sequence of setter calls (booleans as 0/1) ---------- *)
+Inductive role := RClient | RServer.
+Definition setter_n (s : setter) : N :=
+  match s with S_mfs => 0 | S_grease => 1 | S_wt => 2 | S_ec => 3 | S_dg => 4 | S_wtmax => 5 end.
+Fixpoint targets_of (s : setter) (tbl : list (setter * list cfg_target)) : option (list cfg_target) :=
+  match tbl with
+  | [] => None
+  | (s', ts) :: r => if setter_n s =? setter_n s' then Some ts else targets_of s r
+  end.
+Definition n2b (v : N) : bool := negb (v =? 0).
+Definition set_target (v : N) (c : config) (t : cfg_target) : config :=
+  match t with
+  | T_grease => {| c_grease := n2b v; c_mfs := c_mfs c; c_wt := c_wt c; c_ec := c_ec c; c_dg := c_dg c; c_wtmax := c_wtmax c |}
+  | T_field F_mfs => {| c_grease := c_grease c; c_mfs := v; c_wt := c_wt c; c_ec := c_ec c; c_dg := c_dg c; c_wtmax := c_wtmax c |}
+  | T_field F_wt => {| c_grease := c_grease c; c_mfs := c_mfs c; c_wt := n2b v; c_ec := c_ec c; c_dg := c_dg c; c_wtmax := c_wtmax c |}
+  | T_field F_ec => {| c_grease := c_grease c; c_mfs := c_mfs c; c_wt := c_wt c; c_ec := n2b v; c_dg := c_dg c; c_wtmax := c_wtmax c |}
+  | T_field F_dg => {| c_grease := c_grease c; c_mfs := c_mfs c; c_wt := c_wt c; c_ec := c_ec c; c_dg := n2b v; c_wtmax := c_wtmax c |}
+  | T_field F_wtmax => {| c_grease := c_grease c; c_mfs := c_mfs c; c_wt := c_wt c; c_ec := c_ec c; c_dg := c_dg c; c_wtmax := v |}
+  end.
+Definition setters_of (r : role) := match r with RClient => client_setters | RServer => server_setters end.
+(* a setter the builder does not have cannot be called: such a call is skipped *)
+Definition apply_call (r : role) (c : config) (call : setter * N) : config :=
+  match targets_of (fst call) (setters_of r) with
+  | Some ts => fold_left (set_target (snd call)) ts c
+  | None => c
+  end.
+Definition default_config : config :=
+  {| c_grease := default_send_grease; c_mfs := default_field F_mfs; c_wt := bool_default F_wt;
+     c_ec := bool_default F_ec; c_dg := bool_default F_dg; c_wtmax := default_field F_wtmax |}.
+Definition builder_config (r : role) (calls : list (setter * N)) : config :=
+  fold_left (apply_call r) calls default_config.
